@@ -132,21 +132,42 @@ func (n nest) MarshalJSON() ([]byte, error) {
 	return json.Marshal(map[string]any{"t": "x"})
 }
 
+// build turns the description into the Go value. All slice leaves of one argument are consecutive
+// windows onto ONE backing array (what Chunk hands out): a helper that appends into a leaf it was given
+// overwrites the leaves behind it, and its result shows it.
 func (n nest) build() any {
-	switch n.T {
-	case "v":
-		return n.V
-	case "s":
-		return cp(n.S)
-	case "l":
-		out := make([]any, 0, len(n.L))
-		for _, c := range n.L {
-			out = append(out, c.build())
+	var total int
+	var count func(n nest)
+	count = func(n nest) {
+		if n.T == "s" {
+			total += len(n.S)
 		}
-		return out
-	default:
-		return "malformed" // a string where ints are expected
+		for _, c := range n.L {
+			count(c)
+		}
 	}
+	count(n)
+	arena := make([]int, 0, total+4)
+	var mk func(n nest) any
+	mk = func(n nest) any {
+		switch n.T {
+		case "v":
+			return n.V
+		case "s":
+			off := len(arena)
+			arena = append(arena, n.S...)
+			return arena[off:len(arena):cap(arena)]
+		case "l":
+			out := make([]any, 0, len(n.L))
+			for _, c := range n.L {
+				out = append(out, mk(c))
+			}
+			return out
+		default:
+			return "malformed" // a string where ints are expected
+		}
+	}
+	return mk(n)
 }
 
 func nestOf(x any) nest {
